@@ -1359,7 +1359,8 @@ namespace xsimd
         {
             if (std::is_signed<T>::value)
             {
-                return sadd(self, -other);
+                // -other is not representable when other is the minimum value
+                return ssub(self, other, generic {});
             }
             else
             {
